@@ -48,13 +48,29 @@ def registry():
     # vertical slices register themselves: any harness/checks_*.py with a REGISTRY dict
     import glob
     import importlib
+    extras = {}
     for path in sorted(glob.glob(os.path.join(HERE, 'checks_*.py'))):
         name = os.path.basename(path)[:-3]
         if name in ('checks_core', 'checks_more'):
             continue
         mod = importlib.import_module(name)
         reg.update(getattr(mod, 'REGISTRY', {}))
+        # several slices may extend the same property: `EXTRAS = {'Cxx': [fn, ...]}`; the
+        # functions run after whichever check function is registered for the property
+        for k, fns in getattr(mod, 'EXTRAS', {}).items():
+            extras.setdefault(k, []).extend(fns)
+    for k, fns in extras.items():
+        if k in reg:
+            reg[k] = (_with_extras(reg[k][0], fns),) + tuple(reg[k][1:])
     return reg
+
+
+def _with_extras(fn, fns):
+    def run(ctx):
+        fn(ctx)
+        for f in fns:
+            f(ctx)
+    return run
 
 
 def _unknown_violations(ctx):
